@@ -166,6 +166,9 @@ def rule_sym(ctx):
 
 
 # ----------------------------------------------------------------------- C03.WRITE
+VERBATIM = " a  b\tc\n<&'\"> "
+
+
 def _instance_for_write(ctx, ci, fill, nkids=3):
     p = ctx.p
     res = abstract_construct(p, ci, full_kwargs(p, ci))
@@ -209,6 +212,8 @@ def rule_write(ctx):
         "zero": lambda k: Const(0),
         "empty-string": lambda k: Const(""),
         "None": lambda k: Const(None),
+        # text whose every character matters: runs of blanks, tab, newline, leading/trailing blank, markup characters
+        "verbatim-text": lambda k: Const(VERBATIM),
     }
     n = 0
     for ci in concrete_message_classes(p) + concrete_part_classes(p):
@@ -266,6 +271,9 @@ def rule_write(ctx):
                     elif fname == "symbol" and not mentions(w, lambda t: t is v):
                         ctx.violated("C03.WRITE", inst, f"attribute '{k}' is written with a value that does not derive from it: {show(w)[:60]}", fi=f, text=f"{ci.name}.{k}:value")
                         bad = True
+                    elif fname == "verbatim-text" and not (isinstance(w, Const) and w.v == VERBATIM):
+                        ctx.violated("C03.WRITE", inst, f"attribute '{k}' = {VERBATIM!r} is written as {show(w)[:60]}: text does not reach the wire unchanged (blanks, line breaks or markup characters are altered)", fi=f, text=f"{ci.name}.{k}:verbatim", witness=f"{ci.name}({k}={VERBATIM!r})")
+                        bad = True
                     elif fname == "zero" and not (isinstance(w, Const) and w.v == "0"):
                         ctx.violated("C03.WRITE", inst, f"attribute '{k}' = 0 is written as {show(w)[:40]}", fi=f, text=f"{ci.name}.{k}:zero")
                         bad = True
@@ -279,6 +287,9 @@ def rule_write(ctx):
                         if st:
                             ctx.violated("C03.WRITE", inst, "text is written although value is None", fi=f, text=f"{ci.name}.text:None")
                             bad = True
+                    elif st and fname == "verbatim-text" and not (isinstance(st[-1].data["value"], Const) and st[-1].data["value"].v == VERBATIM):
+                        ctx.violated("C03.WRITE", inst, f"element text for value = {VERBATIM!r} is written as {show(st[-1].data['value'])[:60]}: text does not reach the wire unchanged", fi=f, text=f"{ci.name}.text:verbatim", witness=f"{ci.name}(value={VERBATIM!r})")
+                        bad = True
                     elif not st or (fname == "symbol" and not mentions(st[-1].data["value"], lambda t: t is o.attrs["value"])):
                         ctx.violated("C03.WRITE", inst, f"element text is not written from 'value' (value = {fname})", fi=f, text=f"{ci.name}.text:{fname}")
                         bad = True
@@ -295,9 +306,9 @@ def rule_write(ctx):
                                 ctx.violated("C03.WRITE", inst, "a child is not attached to the message's own element", fi=f, text=f"{ci.name}.children-parent")
                                 bad = True
         if not bad:
-            ctx.holds("C03.WRITE", inst, "all non-None attributes, text and ordered children written (symbol/0/''/None probes)", fi=f)
+            ctx.holds("C03.WRITE", inst, "all non-None attributes, text and ordered children written (symbol/0/''/None/verbatim-text probes)", fi=f)
     ctx.floor("C03.WRITE", "to_xml evaluations", n, 100)
-    ctx.exhaustive_domains.append("every concrete class x {symbol, 0, '', None} attribute fill")
+    ctx.exhaustive_domains.append("every concrete class x {symbol, 0, '', None, text with significant blanks and markup characters} attribute fill")
     # to_string: declaration + serialised element + newline, from to_xml of self; the bytes must be self-describing:
     # default serialisation (us-ascii with character references) or an encoding that the declaration names
     ts = msg_base(p).find_method("to_string")
@@ -540,7 +551,8 @@ def rule_read(ctx):
 
 # 'the same attributes': a constructor that drops an argument under some condition breaks the round trip
 # the receive path is how a serialised message is parsed in practice: the scan must find it whatever text it carries
-IMPORTS = [('C20', 'C20.CTOR'), ('C02', 'C02.FIND'), ('C02', 'C02.DISCARD')]
+# a message the codec produced must also survive the framing loop's 'is this a message?' test (C02.TRUTHY)
+IMPORTS = [('C20', 'C20.CTOR'), ('C02', 'C02.FIND'), ('C02', 'C02.DISCARD'), ('C02', 'C02.TRUTHY')]
 
 RULES = [
     ("C03.REG", rule_reg, "every emit-able message class is registered with the parser; tags unique; same tag function on both sides"),
